@@ -1112,6 +1112,10 @@ def pres_notes(ctx):
     empty = [c for c, n in cells.items() if n == 0]
     if empty and not ctx.replay:
         ctx.notes.append("presence-notes part: required cells not visited this run: %s" % empty)
+    for a_ in ("presence-notes part: lossless network (no queue of hub.routeSrv / hub.routeCli / Topic.serverMsg / Topic.clientMsg overflows)",
+               "presence-notes part: one handler at a time per topic; per-(sender,destination) FIFO"):
+        if a_ not in ctx.assumptions:
+            ctx.assumptions.append(a_)
     ctx.coverage["pres_notes"] = {
         "scenarios": len(scns), "operations": sum(len(sc.ops) for sc in scns), "note_requests": notes,
         "law_failures": {l: len(v) for l, v in fails.items()}, "correspondence_mismatches": len(mism),
